@@ -2564,13 +2564,17 @@ class RedunBackendDb(RedunBackend):
 
         # Try to detect previous Handles that have skipped recording
         # such as due to multiple chained fork calls.
+        # The fork itself is a state transition (fork_parent --> fork), so its edge is part of
+        # the lineage: without it a rollback of fork_parent (or of its ancestors) would not reach
+        # the states derived from the fork.
         queue = [
-            parent_handle.__handle__.fork_parent
+            (parent_handle.__handle__.fork_parent, parent_handle)
             for parent_handle in parent_handles
             if parent_handle.__handle__.fork_parent and not parent_handle.__handle__.is_recorded
         ]
+        fork_edges = []
         while queue:
-            _handle = queue.pop()
+            _handle, _fork = queue.pop()
             get_or_create(
                 self.session,
                 Handle,
@@ -2583,8 +2587,9 @@ class RedunBackendDb(RedunBackend):
                 {"is_valid": True},
             )
             _handle.__handle__.is_recorded = True
+            fork_edges.append((_handle.__handle__.hash, _fork.__handle__.hash))
             if _handle.__handle__.fork_parent:
-                queue.append(_handle.__handle__.fork_parent)
+                queue.append((_handle.__handle__.fork_parent, _handle))
 
         # Get or create child_handle.
         child_row, _ = get_or_create(
@@ -2623,6 +2628,14 @@ class RedunBackendDb(RedunBackend):
                     "parent_id": parent_handle.__handle__.hash,
                     "child_id": child_handle.__handle__.hash,
                 },
+            )
+
+        # Record the edges of explicit forks now that both of their ends exist.
+        for parent_hash, child_hash in fork_edges:
+            get_or_create(
+                self.session,
+                HandleEdge,
+                {"parent_id": parent_hash, "child_id": child_hash},
             )
 
         self.session.commit()
